@@ -180,6 +180,14 @@ theorem numText_real (F : FloatOps α) (x : α) (h : FloatOK F x) : NumText F (s
 /-- no NUL byte -/
 def StrOK (s : List Byte) : Prop := ∀ b ∈ s, b ≠ 0
 
+/-- **Keys that stay different keys through a save / restore**: whatever values equal to two keys up to `Equiv` (equal
+    integers / strings, floats with the same saved text) come back, `msameval` — the duplicate test of restore_mapping —
+    tells them apart.  Follows from pairwise different integer / string / object keys when there is no float key
+    (`keysDistinct_of_tags`), and for float keys from pairwise different saved texts plus the contract of `==` on the
+    floats with those texts (`keysDistinct_of_tagsF`) -/
+def KeysDistinct (F : FloatOps α) (ks : List (Value α)) : Prop :=
+  ks.Pairwise (fun x y => ∀ x' y', Equiv F (erase x) x' → Equiv F (erase y) y' → sameKey F x' y' = false)
+
 mutual
 inductive Savable (F : FloatOps α) : Value α → Prop
   | int (n : Int) : -(2 : Int) ^ 63 ≤ n → n < (2 : Int) ^ 63 → Savable F (.int n)
@@ -188,8 +196,7 @@ inductive Savable (F : FloatOps α) : Value α → Prop
   | obj : Savable F .obj
   | arr (xs : Vals α) : SavableVals F xs → xs.length ≤ maxArray → Savable F (.arr xs)
   | cls (xs : Vals α) : SavableVals F xs → Savable F (.cls xs)
-  | map (ps : Pairs α) : SavablePairs F ps → (∀ k ∈ ps.keys, isReal k = false) →
-      ((ps.keys.filterMap keyTag).Nodup) → Savable F (.map ps)
+  | map (ps : Pairs α) : SavablePairs F ps → KeysDistinct F ps.keys → Savable F (.map ps)
 inductive SavableVals (F : FloatOps α) : Vals α → Prop
   | nil : SavableVals F .nil
   | cons (v : Value α) (r : Vals α) : Savable F v → SavableVals F r → SavableVals F (.cons v r)
@@ -201,47 +208,6 @@ end
 theorem strOK_iff (s : List Byte) : strOK s = true ↔ StrOK s := by
   simp [strOK, StrOK]
 
-mutual
-/-- the decidable domain check plus the float contract give the inductive form -/
-theorem savable_bridge (F : FloatOps α) : (v : Value α) → savable v = true → FloatsOK F v → Savable F v
-  | .int n, h, _ => by
-    simp only [savable, Bool.and_eq_true, decide_eq_true_eq] at h
-    exact Savable.int n h.1 h.2
-  | .real x, _, hf => by
-    rw [FloatsOK] at hf
-    exact Savable.real x hf
-  | .str s, h, _ => by
-    rw [savable] at h
-    exact Savable.str s ((strOK_iff s).1 h)
-  | .obj, _, _ => Savable.obj
-  | .arr xs, h, hf => by
-    simp only [savable, Bool.and_eq_true, decide_eq_true_eq] at h
-    rw [FloatsOK] at hf
-    exact Savable.arr xs (savableVals_bridge F xs h.2 hf) h.1
-  | .cls xs, h, hf => by
-    rw [savable] at h
-    rw [FloatsOK] at hf
-    exact Savable.cls xs (savableVals_bridge F xs h hf)
-  | .map ps, h, hf => by
-    simp only [savable, Bool.and_eq_true, decide_eq_true_eq, List.all_eq_true, Bool.not_eq_true'] at h
-    rw [FloatsOK] at hf
-    exact Savable.map ps (savablePairs_bridge F ps h.1.1 hf) h.1.2 h.2
-theorem savableVals_bridge (F : FloatOps α) : (xs : Vals α) → savableVals xs = true → FloatsOKVals F xs →
-    SavableVals F xs
-  | .nil, _, _ => SavableVals.nil
-  | .cons v r, h, hf => by
-    simp only [savableVals, Bool.and_eq_true] at h
-    rw [FloatsOKVals] at hf
-    exact SavableVals.cons v r (savable_bridge F v h.1 hf.1) (savableVals_bridge F r h.2 hf.2)
-theorem savablePairs_bridge (F : FloatOps α) : (ps : Pairs α) → savablePairs ps = true → FloatsOKPairs F ps →
-    SavablePairs F ps
-  | .nil, _, _ => SavablePairs.nil
-  | .cons k v r, h, hf => by
-    simp only [savablePairs, Bool.and_eq_true] at h
-    rw [FloatsOKPairs] at hf
-    exact SavablePairs.cons k v r (savable_bridge F k h.1.1 hf.1) (savable_bridge F v h.1.2 hf.2.1)
-      (savablePairs_bridge F r h.2 hf.2.2)
-end
 
 /-! ## (C) strings -/
 
@@ -450,8 +416,8 @@ theorem Savable.arr_inv {xs : Vals α} (h : Savable F (.arr xs)) : SavableVals F
 theorem Savable.cls_inv {xs : Vals α} (h : Savable F (.cls xs)) : SavableVals F xs := by
   cases h; assumption
 theorem Savable.map_inv {ps : Pairs α} (h : Savable F (.map ps)) :
-    SavablePairs F ps ∧ (∀ k ∈ ps.keys, isReal k = false) ∧ (ps.keys.filterMap keyTag).Nodup := by
-  cases h; exact ⟨by assumption, by assumption, by assumption⟩
+    SavablePairs F ps ∧ KeysDistinct F ps.keys := by
+  cases h; exact ⟨by assumption, by assumption⟩
 theorem SavableVals.cons_inv {v : Value α} {r : Vals α} (h : SavableVals F (.cons v r)) :
     Savable F v ∧ SavableVals F r := by
   cases h; exact ⟨by assumption, by assumption⟩
@@ -979,6 +945,131 @@ theorem keyTag_erase (v : Value α) : keyTag (erase v) = keyTag v := by
 
 theorem isReal_erase (v : Value α) : isReal (erase v) = isReal v := by
   cases v <;> simp [erase, isReal]
+
+/-- no float keys and pairwise different integer / string / object keys: the keys stay different keys -/
+theorem keysDistinct_of_tags (F : FloatOps α) : ∀ ks : List (Value α), (∀ k ∈ ks, isReal k = false) →
+    (ks.filterMap keyTag).Nodup → KeysDistinct F ks
+  | [], _, _ => List.Pairwise.nil
+  | x :: r, hr, hn => by
+    unfold KeysDistinct
+    rw [List.pairwise_cons]
+    refine ⟨?_, keysDistinct_of_tags F r (fun k hk => hr k (by simp [hk])) ?_⟩
+    · intro y hy x' y' ex ey
+      cases hs : sameKey F x' y' with
+      | false => rfl
+      | true =>
+        have hyr : isReal y' = false := by rw [← ey.isReal_eq, isReal_erase]; exact hr y (by simp [hy])
+        obtain ⟨t, h1, h2⟩ := sameKey_tag F x' y' hs hyr
+        have hx : keyTag x = some t := by rw [← keyTag_erase, ex.keyTag_eq]; exact h1
+        have hyt : keyTag y = some t := by rw [← keyTag_erase, ey.keyTag_eq]; exact h2
+        simp only [List.filterMap_cons, hx] at hn
+        rw [List.nodup_cons] at hn
+        exact absurd (List.mem_filterMap.2 ⟨y, hy, hyt⟩) hn.1
+    · simp only [List.filterMap_cons] at hn
+      cases hx : keyTag x with
+      | none => simpa [hx] using hn
+      | some t => rw [hx] at hn; exact (List.nodup_cons.1 hn).2
+
+/-- identity of a key when float keys are admitted: a float key is identified by its saved text -/
+def keyTagF (F : FloatOps α) : Value α → Option ((Int ⊕ List Byte) ⊕ List Byte)
+  | .real x => some (.inr (saveReal F x))
+  | v => (keyTag v).map .inl
+
+/-- the contract of `==` (msameval on float keys) needed for the float keys of ONE mapping: floats that print like two
+    of its float keys and compare equal belong to keys that print alike.  True of IEEE `==` except for the pair
+    0.0 / -0.0 (equal, printed "0.0" / "-0.0") — which no mapping holds as two keys, msameval identifying them. -/
+def EqPrintOK (F : FloatOps α) (ks : List (Value α)) : Prop :=
+  ∀ a b, Value.real a ∈ ks → Value.real b ∈ ks → ∀ a' b', saveReal F a' = saveReal F a → saveReal F b' = saveReal F b →
+    F.eq a' b' = true → saveReal F a = saveReal F b
+
+theorem sameKey_tagF (F : FloatOps α) (x y x' y' : Value α) (ex : Equiv F (erase x) x') (ey : Equiv F (erase y) y')
+    (hs : sameKey F x' y' = true)
+    (hc : ∀ a b a' b', x = .real a → y = .real b → saveReal F a' = saveReal F a → saveReal F b' = saveReal F b →
+      F.eq a' b' = true → saveReal F a = saveReal F b) :
+    ∃ t, keyTagF F x = some t ∧ keyTagF F y = some t := by
+  by_cases hr : isReal y' = true
+  · cases x' <;> cases y' <;> simp [sameKey, isReal] at hs hr
+    rename_i a' b'
+    cases x <;> rw [erase] at ex <;> cases ex
+    cases y <;> rw [erase] at ey <;> cases ey
+    rename_i a ha b hb
+    have := hc a b a' b' rfl rfl ha.symm hb.symm hs
+    exact ⟨.inr (saveReal F a), rfl, by simp [keyTagF, this]⟩
+  · have hr' : isReal y' = false := by simpa using hr
+    obtain ⟨t, h1, h2⟩ := sameKey_tag F x' y' hs hr'
+    have hx : keyTag x = some t := by rw [← keyTag_erase, ex.keyTag_eq]; exact h1
+    have hy : keyTag y = some t := by rw [← keyTag_erase, ey.keyTag_eq]; exact h2
+    refine ⟨.inl t, ?_, ?_⟩
+    · cases x <;> simp [keyTagF, keyTag] at hx ⊢ <;> exact hx
+    · cases y <;> simp [keyTagF, keyTag] at hy ⊢ <;> exact hy
+
+/-- float keys admitted: pairwise different keys — float keys by their saved texts — stay different keys, given the
+    `==` contract on the floats with those texts -/
+theorem keysDistinct_of_tagsF (F : FloatOps α) : ∀ ks : List (Value α), (ks.filterMap (keyTagF F)).Nodup →
+    EqPrintOK F ks → KeysDistinct F ks
+  | [], _, _ => List.Pairwise.nil
+  | x :: r, hn, hc => by
+    unfold KeysDistinct
+    rw [List.pairwise_cons]
+    refine ⟨?_, keysDistinct_of_tagsF F r ?_ ?_⟩
+    · intro y hy x' y' ex ey
+      cases hs : sameKey F x' y' with
+      | false => rfl
+      | true =>
+        obtain ⟨t, hx, hyt⟩ := sameKey_tagF F x y x' y' ex ey hs (by
+          intro a b a' b' h1 h2 h3 h4 h5
+          exact hc a b (by rw [h1]; simp) (by rw [← h2]; simp [hy]) a' b' h3 h4 h5)
+        simp only [List.filterMap_cons, hx] at hn
+        rw [List.nodup_cons] at hn
+        exact absurd (List.mem_filterMap.2 ⟨y, hy, hyt⟩) hn.1
+    · simp only [List.filterMap_cons] at hn
+      cases hx : keyTagF F x with
+      | none => simpa [hx] using hn
+      | some t => rw [hx] at hn; exact (List.nodup_cons.1 hn).2
+    · intro a b ha hb
+      exact hc a b (by simp [ha]) (by simp [hb])
+
+mutual
+/-- the decidable domain check plus the float contract give the inductive form -/
+theorem savable_bridge (F : FloatOps α) : (v : Value α) → savable v = true → FloatsOK F v → Savable F v
+  | .int n, h, _ => by
+    simp only [savable, Bool.and_eq_true, decide_eq_true_eq] at h
+    exact Savable.int n h.1 h.2
+  | .real x, _, hf => by
+    rw [FloatsOK] at hf
+    exact Savable.real x hf
+  | .str s, h, _ => by
+    rw [savable] at h
+    exact Savable.str s ((strOK_iff s).1 h)
+  | .obj, _, _ => Savable.obj
+  | .arr xs, h, hf => by
+    simp only [savable, Bool.and_eq_true, decide_eq_true_eq] at h
+    rw [FloatsOK] at hf
+    exact Savable.arr xs (savableVals_bridge F xs h.2 hf) h.1
+  | .cls xs, h, hf => by
+    rw [savable] at h
+    rw [FloatsOK] at hf
+    exact Savable.cls xs (savableVals_bridge F xs h hf)
+  | .map ps, h, hf => by
+    simp only [savable, Bool.and_eq_true, decide_eq_true_eq, List.all_eq_true, Bool.not_eq_true'] at h
+    rw [FloatsOK] at hf
+    exact Savable.map ps (savablePairs_bridge F ps h.1.1 hf) (keysDistinct_of_tags F ps.keys h.1.2 h.2)
+theorem savableVals_bridge (F : FloatOps α) : (xs : Vals α) → savableVals xs = true → FloatsOKVals F xs →
+    SavableVals F xs
+  | .nil, _, _ => SavableVals.nil
+  | .cons v r, h, hf => by
+    simp only [savableVals, Bool.and_eq_true] at h
+    rw [FloatsOKVals] at hf
+    exact SavableVals.cons v r (savable_bridge F v h.1 hf.1) (savableVals_bridge F r h.2 hf.2)
+theorem savablePairs_bridge (F : FloatOps α) : (ps : Pairs α) → savablePairs ps = true → FloatsOKPairs F ps →
+    SavablePairs F ps
+  | .nil, _, _ => SavablePairs.nil
+  | .cons k v r, h, hf => by
+    simp only [savablePairs, Bool.and_eq_true] at h
+    rw [FloatsOKPairs] at hf
+    exact SavablePairs.cons k v r (savable_bridge F k h.1.1 hf.1) (savable_bridge F v h.1.2 hf.2.1)
+      (savablePairs_bridge F r h.2 hf.2.2)
+end
 
 /-! ## the size table written by the pre-pass -/
 
